@@ -25,6 +25,9 @@ pub struct Case {
   /// empty last line, 2 = valid lines (another measurement) then a garbage line, 3 = garbage only
   #[serde(default)]
   pub poison: u8,
+  /// a large collection: this many distinct shares instead of t + delta (sizes around powers of two)
+  #[serde(default)]
+  pub big_n: Option<u16>,
 }
 
 fn epoch_string() -> BoxedStrategy<String> {
@@ -49,8 +52,10 @@ fn strat(_t: Tier) -> BoxedStrategy<Case> {
     bytes(60),
     vec((any::<u16>(), any::<u16>()), 0..5),
     prop_oneof![2 => Just(0u8), 1 => Just(1u8), 1 => Just(2u8), 1 => Just(3u8)],
+    proptest::option::weighted(0.02, prop_oneof![Just(255u16), Just(256u16), Just(257u16), Just(1023u16), Just(1024u16), Just(1025u16), Just(1026u16), Just(2049u16), Just(4097u16)]),
   )
-    .prop_map(|(m, t, epoch, delta, dups, other_epoch, other_m, swaps, poison)| Case {
+    .prop_map(|(m, t, epoch, delta, dups, other_epoch, other_m, swaps, poison, big_n)| Case {
+      big_n,
       m,
       t,
       epoch,
@@ -134,7 +139,13 @@ fn oracle(c: &Case, st: &mut Stats) -> Result<(), String> {
     return Ok(());
   }
   // n distinct shares of the one measurement
-  let n = (t as i64 + c.delta as i64).max(1) as usize;
+  let n = match c.big_n {
+    Some(big) if t <= 64 => {
+      st.class("large-collection(255..4097 shares)");
+      (big as usize).max(t as usize)
+    }
+    _ => (t as i64 + c.delta as i64).max(1) as usize,
+  };
   let mut created = vec![first];
   for _ in 1..n.max(t as usize) {
     created.push(create(&c.m, t, &c.epoch)?);
